@@ -6,8 +6,8 @@ PROPS["C06"] = {
     "pkg": "c06", "level": "exploration",
     "jobs": {
         "quick": [
-            {"name": "split", "run": "^TestSplitPartition$", "checks": 6000, "shards": 4},
-            {"name": "dispatch", "run": "^TestDispatchRoutesByPartIndex$", "checks": 1500, "shards": 2},
+            {"name": "split", "run": "^TestSplitPartition$", "checks": 36000, "shards": 4},
+            {"name": "dispatch", "run": "^TestDispatchRoutesByPartIndex$", "checks": 9000, "shards": 2},
         ],
         "thorough": [
             {"name": "split", "run": "^TestSplitPartition$", "checks": 800000, "shards": 12, "timeout": 1500},
@@ -22,7 +22,7 @@ PROPS["C06"] = {
 PROPS["C07"] = {
     "pkg": "c07", "level": "exploration",
     "jobs": {
-        "quick": [{"name": "merge", "run": "^TestMergeArrangements$", "checks": 4000, "shards": 8}],
+        "quick": [{"name": "merge", "run": "^TestMergeArrangements$", "checks": 20000, "shards": 8}],
         "thorough": [{"name": "merge", "run": "^TestMergeArrangements$", "checks": 640000, "shards": 16, "timeout": 1700}],
     },
     "assumptions": [
@@ -37,9 +37,9 @@ PROPS["C02"] = {
     "jobs": {
         "quick": [
             {"name": "corpus", "kind": "plain", "run": "^TestSeedCorpus$"},
-            {"name": "grammar", "run": "^TestGrammarLines$", "checks": 24000, "shards": 6},
-            {"name": "nearmiss", "run": "^TestNearMisses$", "checks": 24000, "shards": 6},
-            {"name": "arbitrary", "run": "^TestArbitraryStrings$", "checks": 12000, "shards": 3},
+            {"name": "grammar", "run": "^TestGrammarLines$", "checks": 192000, "shards": 6},
+            {"name": "nearmiss", "run": "^TestNearMisses$", "checks": 192000, "shards": 6},
+            {"name": "arbitrary", "run": "^TestArbitraryStrings$", "checks": 96000, "shards": 3},
         ],
         "thorough": [
             {"name": "corpus", "kind": "plain", "run": "^TestSeedCorpus$"},
@@ -60,9 +60,9 @@ PROPS["C03"] = {
     "jobs": {
         "quick": [
             {"name": "seeds", "kind": "plain", "run": "^(TestDatagramSeeds|TestHeaderBoundaryPairs)$"},
-            {"name": "lexer", "run": "^TestLexerNeverPanics$", "checks": 16000, "shards": 4},
-            {"name": "parser", "run": "^TestParserAccounting$", "checks": 4000, "shards": 6},
-            {"name": "http", "run": "^TestHTTPIngestion$", "checks": 3000, "shards": 5},
+            {"name": "lexer", "run": "^TestLexerNeverPanics$", "checks": 64000, "shards": 4},
+            {"name": "parser", "run": "^TestParserAccounting$", "checks": 16000, "shards": 6},
+            {"name": "http", "run": "^TestHTTPIngestion$", "checks": 12000, "shards": 5},
         ],
         "thorough": [
             {"name": "seeds", "kind": "plain", "run": "^(TestDatagramSeeds|TestHeaderBoundaryPairs)$"},
@@ -85,8 +85,8 @@ PROPS["C08"] = {
     "pkg": "c08", "level": "exploration",
     "jobs": {
         "quick": [
-            {"name": "stats", "run": "^TestTimerStatistics$", "checks": 16000, "shards": 8},
-            {"name": "hist", "run": "^TestHistograms$", "checks": 8000, "shards": 4},
+            {"name": "stats", "run": "^TestTimerStatistics$", "checks": 128000, "shards": 8},
+            {"name": "hist", "run": "^TestHistograms$", "checks": 64000, "shards": 4},
         ],
         "thorough": [
             {"name": "stats", "run": "^TestTimerStatistics$", "checks": 1600000, "shards": 12, "timeout": 1700},
@@ -105,7 +105,7 @@ PROPS["C08"] = {
 PROPS["C09"] = {
     "pkg": "c09", "level": "exploration",
     "jobs": {
-        "quick": [{"name": "expiry", "run": "^TestExpiryHistories$", "checks": 8000, "shards": 8, "steps": 40}],
+        "quick": [{"name": "expiry", "run": "^TestExpiryHistories$", "checks": 48000, "shards": 8, "steps": 40}],
         "thorough": [{"name": "expiry", "run": "^TestExpiryHistories$", "checks": 1200000, "shards": 16, "steps": 60, "timeout": 1700}],
     },
     "assumptions": [
@@ -131,7 +131,7 @@ PROPS["C04"] = {
 PROPS["C05"] = {
     "pkg": "c05", "level": "exploration",
     "jobs": {
-        "quick": [{"name": "datagram", "run": "^TestDatagramLinesIndependent$", "checks": 4000, "shards": 12}],
+        "quick": [{"name": "datagram", "run": "^TestDatagramLinesIndependent$", "checks": 24000, "shards": 12}],
         "thorough": [{"name": "datagram", "run": "^TestDatagramLinesIndependent$", "checks": 640000, "shards": 16, "timeout": 1700}],
     },
     "assumptions": [
@@ -145,8 +145,8 @@ PROPS["C10"] = {
     "pkg": "c10", "level": "exploration",
     "jobs": {
         "quick": [
-            {"name": "patterns", "run": "^TestPatternSemantics$", "checks": 4000, "shards": 2},
-            {"name": "stage", "run": "^TestTagStage$", "checks": 8000, "shards": 8},
+            {"name": "patterns", "run": "^TestPatternSemantics$", "checks": 24000, "shards": 2},
+            {"name": "stage", "run": "^TestTagStage$", "checks": 48000, "shards": 8},
         ],
         "thorough": [
             {"name": "patterns", "run": "^TestPatternSemantics$", "checks": 200000, "shards": 2, "timeout": 1700},
@@ -182,8 +182,8 @@ PROPS["C14"] = {
     "pkg": "c14", "level": "exploration",
     "jobs": {
         "quick": [
-            {"name": "roundtrip", "run": "^TestRoundTrip$", "checks": 3200, "shards": 8},
-            {"name": "differential", "run": "^TestIngestDifferential$", "checks": 6000, "shards": 4},
+            {"name": "roundtrip", "run": "^TestRoundTrip$", "checks": 9600, "shards": 8},
+            {"name": "differential", "run": "^TestIngestDifferential$", "checks": 18000, "shards": 4},
         ],
         "thorough": [
             {"name": "roundtrip", "run": "^TestRoundTrip$", "checks": 320000, "shards": 10, "timeout": 1700},
@@ -202,9 +202,9 @@ PROPS["C01"] = {
     "pkg": "c01", "level": "exploration",
     "jobs": {
         "quick": [
-            {"name": "pipeline", "run": "^TestPipelineConservation$", "checks": 1200, "shards": 8},
-            {"name": "pipeline-race", "run": "^TestPipelineConservation$", "checks": 160, "shards": 4, "race": True},
-            {"name": "history", "run": "^TestShardHistory$", "checks": 4000, "shards": 4, "steps": 40},
+            {"name": "pipeline", "run": "^TestPipelineConservation$", "checks": 2400, "shards": 8},
+            {"name": "pipeline-race", "run": "^TestPipelineConservation$", "checks": 320, "shards": 4, "race": True},
+            {"name": "history", "run": "^TestShardHistory$", "checks": 8000, "shards": 4, "steps": 40},
         ],
         "thorough": [
             {"name": "pipeline", "run": "^TestPipelineConservation$", "checks": 120000, "shards": 8, "timeout": 1700},
@@ -223,7 +223,7 @@ PROPS["C01"] = {
 PROPS["C11"] = {
     "pkg": "c11", "level": "exploration",
     "jobs": {
-        "quick": [{"name": "cloud", "run": "^TestCloudStageHistories$", "checks": 3200, "shards": 16, "steps": 25}],
+        "quick": [{"name": "cloud", "run": "^TestCloudStageHistories$", "checks": 6400, "shards": 16, "steps": 25}],
         "thorough": [{"name": "cloud", "run": "^TestCloudStageHistories$", "checks": 320000, "shards": 16, "steps": 40, "timeout": 1700}],
     },
     "assumptions": [
@@ -249,7 +249,7 @@ PROPS["C12"] = {
 PROPS["C13"] = {
     "pkg": "c13", "level": "exploration",
     "jobs": {
-        "quick": [{"name": "pods", "run": "^TestPodHistories$", "checks": 2400, "shards": 16, "steps": 32}],
+        "quick": [{"name": "pods", "run": "^TestPodHistories$", "checks": 4800, "shards": 16, "steps": 32}],
         "thorough": [{"name": "pods", "run": "^TestPodHistories$", "checks": 128000, "shards": 16, "steps": 30, "timeout": 1700}],
     },
     "assumptions": [
@@ -289,9 +289,9 @@ PROPS["C17"] = {
     "jobs": {
         "quick": [
             {"name": "probes", "kind": "plain", "run": "^TestProbe"},
-            {"name": "payloads", "run": "^TestPayloadsCarryEverySeriesOnce$", "checks": 640, "shards": 8},
-            {"name": "relay", "run": "^TestRelayRoundTrip$", "checks": 640, "shards": 4},
-            {"name": "relay-events", "run": "^TestRelayEvents$", "checks": 400, "shards": 2},
+            {"name": "payloads", "run": "^TestPayloadsCarryEverySeriesOnce$", "checks": 1920, "shards": 8},
+            {"name": "relay", "run": "^TestRelayRoundTrip$", "checks": 1920, "shards": 4},
+            {"name": "relay-events", "run": "^TestRelayEvents$", "checks": 1200, "shards": 2},
         ],
         "thorough": [
             {"name": "probes", "kind": "plain", "run": "^TestProbe"},
@@ -314,8 +314,8 @@ PROPS["C15"] = {
     "jobs": {
         "quick": [
             {"name": "probes", "kind": "plain", "run": "^TestProbe"},
-            {"name": "delivery", "run": "^TestForwarderDelivery$", "checks": 480, "shards": 8},
-            {"name": "faults", "run": "^TestForwarderDeliveryFaults$", "checks": 48, "shards": 16},
+            {"name": "delivery", "run": "^TestForwarderDelivery$", "checks": 1440, "shards": 8},
+            {"name": "faults", "run": "^TestForwarderDeliveryFaults$", "checks": 144, "shards": 16},
         ],
         "thorough": [
             {"name": "probes", "kind": "plain", "run": "^TestProbe"},
@@ -338,9 +338,9 @@ PROPS["C19"] = {
     "jobs": {
         "quick": [
             {"name": "probes", "kind": "plain", "run": "^TestProbe"},
-            {"name": "pipeline", "run": "^TestEventsThroughPipeline$", "checks": 1600, "shards": 8},
-            {"name": "gated", "run": "^TestWaitForEventsGated$", "checks": 320, "shards": 8},
-            {"name": "forwarder", "run": "^TestEventsForwarderMode$", "checks": 800, "shards": 4},
+            {"name": "pipeline", "run": "^TestEventsThroughPipeline$", "checks": 9600, "shards": 8},
+            {"name": "gated", "run": "^TestWaitForEventsGated$", "checks": 1920, "shards": 8},
+            {"name": "forwarder", "run": "^TestEventsForwarderMode$", "checks": 4800, "shards": 4},
         ],
         "thorough": [
             {"name": "probes", "kind": "plain", "run": "^TestProbe"},
@@ -362,8 +362,8 @@ PROPS["C20"] = {
     "pkg": "c20", "level": "exploration",
     "jobs": {
         "quick": [
-            {"name": "ordering", "run": "^TestExtensionOrdering$", "checks": 64, "shards": 16},
-            {"name": "startup", "run": "^TestStartupFailure$", "checks": 24, "shards": 4},
+            {"name": "ordering", "run": "^TestExtensionOrdering$", "checks": 192, "shards": 16},
+            {"name": "startup", "run": "^TestStartupFailure$", "checks": 72, "shards": 4},
         ],
         "thorough": [
             {"name": "ordering", "run": "^TestExtensionOrdering$", "checks": 3200, "shards": 16, "timeout": 1700},
